@@ -111,6 +111,15 @@ def cases(tier):
                             a = {n: DIMS[n][0] for n in DIMS}
                             a.update(target=t, form=f, method=meth, grid=g, second=sec, M=M, N=3)
                             add(a, ["target", "form", "method", "grid", "second", "M", "N"])
+    from ..common import have_networkx
+    if have_networkx():
+        for L in (1, 2, 3):
+            for N in (1, 2, 4):
+                for g in ("uniform", "geom"):
+                    for form in ("const", "affine"):
+                        out.append(dict(kind="spline", L=L, N=N, grid=g, form=form, horizon="fixed"))
+                        for order in ("guess_first", "T_first"):
+                            out.append(dict(kind="spline", L=L, N=N, grid=g, form=form, horizon="Tfree", order=order))
     depth = 4 if tier == "thorough" else 3
     for h in explore.histories(list(range(len(HALPHA))), depth):
         if h:
@@ -239,7 +248,63 @@ def x0_check(case, res, tags):
     return vios
 
 
+def run_spline(case):
+    """SplineMethod: a guess for the head of an integrator chain (constant, or affine in time: reproduced exactly by
+    spline coefficients at the Greville points) is the starting trajectory of the head, and the lower chain members start
+    at its time derivatives; node times follow the guessed horizon"""
+    import rockit, casadi as ca, sys
+    from .c17 import rockit_grid, norm_grid
+    L, N, g, form, hz = case["L"], case["N"], case["grid"], case["form"], case["horizon"]
+    tags = ["method=Spline", "L=%d" % L, "N=%d" % N, "grid=%s" % g, "form=%s" % form, "horizon=%s" % hz]
+    vios = []
+    try:
+        t0, Tg = 0.4, 1.7
+        ocp = rockit.Ocp(t0=t0, T=rockit.FreeTime(Tg) if hz == "Tfree" else Tg)
+        xs = [ocp.state() for _ in range(L)]
+        u = ocp.control()
+        for i in range(L):
+            ocp.set_der(xs[i], xs[i + 1] if i + 1 < L else u)
+        ocp.subject_to(-5 <= (u <= 5)); ocp.subject_to(ocp.at_t0(xs[0]) == 0.1)
+        ocp.add_objective(ocp.at_tf(xs[0] ** 2) + ocp.sum(u * u) + (ocp.T if hz == "Tfree" else 0))
+        a, b = 0.35, (0.6 if form == "affine" else 0.0)
+        order = case.get("order", "guess_first")
+        if hz == "Tfree" and order == "T_first":
+            ocp.set_initial(ocp.T, 2.6)
+        ocp.set_initial(xs[0], a + b * ocp.t if form == "affine" else a)
+        if hz == "Tfree" and order == "guess_first":
+            ocp.set_initial(ocp.T, 2.6)
+        ocp.solver("ipopt", {"ipopt.print_level": 0, "print_time": False, "ipopt.sb": "yes"})
+        ocp.method(rockit.SplineMethod(N=N, grid=rockit_grid(g)))
+        nlp = NL.Nlp(ocp)
+        T = 2.6 if hz == "Tfree" else Tg
+        tc = t0 + T * norm_grid(g, N)
+        F = ca.Function("f", [nlp.x, nlp.p], [ocp.sample(xs[0], grid="control")[0]] + [ocp.sample(e, grid="control")[1] for e in xs + [u]], {"allow_free": True})
+        if F.has_free():
+            fr = F.free_mx()
+            F2 = ca.Function("f", [nlp.x, nlp.p] + fr, [ocp.sample(xs[0], grid="control")[0]] + [ocp.sample(e, grid="control")[1] for e in xs + [u]])
+            out = F2(nlp.x0, nlp.p0, *[nlp.opti.debug.value(q_, nlp.opti.initial()) for q_ in fr])
+        else:
+            out = F(nlp.x0, nlp.p0)
+        out = [np.array(o).reshape(-1) for o in out]
+        if not NL.close(out[0], tc, 1e-9):
+            vios.append(dict(sig="value:x0:spline:times", tags=tags, detail="starting node times %s vs those of the guessed horizon %s" % (np.round(out[0], 4), np.round(tc, 4))))
+        want = [a + b * tc] + ([np.full(N + 1, b)] if L >= 1 else []) + [np.zeros(N + 1)] * (L - 1)
+        names = ["x%d" % i for i in range(L)] + ["u"]
+        for nm, got, w_ in zip(names, out[1:], want):
+            if not NL.close(got, w_, 1e-8):
+                vios.append(dict(sig="value:x0:spline:%s" % ("head" if nm == "x0" else "derived"), tags=tags, detail="starting %s = %s, the guess implies %s" % (nm, np.round(got, 5), np.round(w_, 5))))
+                break
+    except Exception as e:
+        fr_ = core.rockit_frame(sys.exc_info()[2])
+        if fr_ is None and not isinstance(e, (RuntimeError, AssertionError, AttributeError)):
+            raise
+        vios.append(dict(sig="exception:spline:%s" % (fr_ or type(e).__name__), tags=tags, detail="%s: %s" % (type(e).__name__, str(e)[:200])))
+    return dict(violations=vios, evaluations=L + 2, traces=1, transitions=3, outcome=explore.sha(case), nontrivial=True, sample=case)
+
+
 def run_case(case):
+    if case["kind"] == "spline":
+        return run_spline(case)
     if case["kind"] == "product":
         out = _trans.run_trans(case, OWN, extra_check=x0_check)
         d = case["d"]
@@ -270,6 +335,6 @@ def run_case(case):
 
 def describe(tier):
     return dict(
-        rule="(a) deviation-bounded enumeration over target (state, control, global / per-interval / control+ variable, algebraic, T, t0) x guess form (scalar, vector, n x N, n x (N+1), 1-D numpy, DM row, time expression) x second call (same target again, guess of T before/after, control expression) x method/N/M/degree/grid/horizon/scale plus the full target x form x method x grid table: the public read-back of opti's starting point equals an independent guess evaluator (entries the statement leaves open are excluded and counted); rows/objective unchanged; (b) every history of length <= d over 11 ops (guesses incl. dependent ones, query, solve, edit, method): next solve = fresh OCP and = the evaluator",
+        rule="(c) SplineMethod: chain length x N x grid x {constant, affine-in-time} guess of the chain head x {fixed, free horizon with a guess of T before/after}: head and derived members start on the guess (spline coefficients at Greville points reproduce affine functions exactly); (a) deviation-bounded enumeration over target (state, control, global / per-interval / control+ variable, algebraic, T, t0) x guess form (scalar, vector, n x N, n x (N+1), 1-D numpy, DM row, time expression) x second call (same target again, guess of T before/after, control expression) x method/N/M/degree/grid/horizon/scale plus the full target x form x method x grid table: the public read-back of opti's starting point equals an independent guess evaluator (entries the statement leaves open are excluded and counted); rows/objective unchanged; (b) every history of length <= d over 11 ops (guesses incl. dependent ones, query, solve, edit, method): next solve = fresh OCP and = the evaluator",
         bound="k<=%d deviations + table; history depth %d" % ((3, 4) if tier == "thorough" else (2, 3)),
         assumptions=["CasADi Opti.initial() is the solver's starting point", "array guesses do not pin helper states / final-node entries beyond their columns (excluded, counted)", "time-expression guesses on FreeGrid are not pinned (no declared partition)"])
